@@ -2258,6 +2258,8 @@ def parse_item(line_tokens):
         return Constant(line, name, imm)
     # errors
     elif head == 'error':
+        if len(tokens) != 2:
+            raise AssemblerError('error must specify a message', line)
         _, message = tokens
         raise AssemblerError(message, line)
     # include_bytes
